@@ -203,7 +203,8 @@ def bounded(tier, seed):
     distinct += len(set(grid))
     samples.append({"stan_epochs": grid[7]})
     # builder chunk on a few real builds
-    scheds = [[(0, 1, 1), (1, 6, 1), (2, 9, 3), (4, 12, 4)], [(0, 1, 1), (3, 7, 1)], [(0, 1, 1), (4, 10, 5), (4, 15, 1)]]
+    scheds = [[(0, 1, 1), (1, 6, 1), (2, 9, 3), (4, 12, 4)], [(0, 1, 1), (3, 7, 1)], [(0, 1, 1), (4, 10, 5), (4, 15, 1)],
+              [(0, 1, 1), (3, 2500, 1), (4, 5000, 1)], [(0, 1, 1), (4, 1001, 1)], [(0, 1, 1), (3, 3 * 7919, 1), (4, 7919, 1)]]
     if tier != "quick":
         for _ in range(20):
             s = [(0, 1, 1)]
